@@ -8,7 +8,7 @@ import signal
 import subprocess
 import time
 
-from scratch import VERIF, src_for_harness_file
+from scratch import VERIF, KANI_DIR, src_for_harness_file
 
 KANI_FLAGS = ["--features", "h2_verif", "-Z", "function-contracts", "-Z", "stubbing"]
 ENV = dict(os.environ, CARGO_NET_OFFLINE="true", CARGO_TERM_COLOR="never")
@@ -19,7 +19,7 @@ HARNESS_RE = re.compile(r"//\s*@harness\s+(.*)")
 def scan_catalogue(kani_dir=None):
     """Every harness is announced by a line `// @harness id=.. props=C01,C02 kind=complete|bounded
     tier=quick|thorough fn=A::b,C::d [bound=..] [timeout=..]` directly above `#[kani::proof]`."""
-    kani_dir = kani_dir or os.path.join(VERIF, "kani")
+    kani_dir = kani_dir or KANI_DIR
     cat = []
     for name in sorted(os.listdir(kani_dir)):
         if not name.endswith(".rs"):
